@@ -56,6 +56,15 @@ def running_order(r, big=False):
     return {"root": root, "kids": kids}, sids
 
 
+def pick_refs(r, present, unknown, lo, hi, big):
+    """a list of references; for big cases mostly distinct, resolving ones (the ordering properties speak about messages
+    whose references all resolve)"""
+    if big and present and r.random() < 0.6:
+        k = min(len(present), r.randint(max(lo, 5), hi))
+        return [rid(x) for x in r.sample(present, k)]
+    return [pick_ref(r, present, unknown) for _ in range(r.randint(lo, hi))]
+
+
 def pick_ref(r, present, unknown, allow_absent=False):
     x = r.random()
     if present and x < 0.75:
@@ -100,7 +109,7 @@ def message(r, ro, sids, big=False):
         elif cls == "StoryAppend":
             m["carried"] = carried()
         elif cls in ("StoryDelete", "EAStoryDelete"):
-            m["ids"] = [pick_ref(r, sids, "SU") for _ in range(r.randint(1, top))]
+            m["ids"] = pick_refs(r, sids, "SU", 1, top, big)
         elif cls in ("StoryInsert", "EAStoryInsert", "StoryReplace", "EAStoryReplace"):
             m["story"] = pick_ref(r, sids, "SU", allow_absent=cls.endswith("Insert"))
             m["carried"] = carried()
@@ -108,7 +117,7 @@ def message(r, ro, sids, big=False):
             m["ids"] = [pick_ref(r, sids, "SU") for _ in range(r.choice([1, 2, 2, 2]))]
         elif cls == "EAStoryMove":
             m["story"] = pick_ref(r, sids, "SU", allow_absent=True)
-            m["ids"] = [pick_ref(r, sids, "SU") for _ in range(r.randint(1, top))]
+            m["ids"] = pick_refs(r, sids, "SU", 1, top, big)
         elif cls == "EAStorySwap":
             m["ids"] = [pick_ref(r, sids, "SU"), pick_ref(r, sids, "SU")]
         return m
@@ -122,15 +131,15 @@ def message(r, ro, sids, big=False):
         fresh_i = [i for i in ["J%d" % i for i in range(1, 16)] if i not in items]
         carried = lambda: [node("item", i, "x:item.msg.%s" % i) for i in r.sample(fresh_i, r.randint(1, 4) if not big else r.randint(5, 12))]
         if cls in ("ItemDelete", "EAItemDelete"):
-            m["ids"] = [pick_ref(r, items, "IU") for _ in range(r.randint(1, top))]
+            m["ids"] = pick_refs(r, items, "IU", 1, top, big)
         elif cls in ("ItemInsert", "EAItemInsert", "ItemReplace", "EAItemReplace"):
             m["item"] = pick_ref(r, items, "IU")
             m["carried"] = carried()
         elif cls == "ItemMoveMultiple":
-            m["ids"] = [pick_ref(r, items, "IU") for _ in range(r.randint(2, top))]
+            m["ids"] = pick_refs(r, items, "IU", 2, top, big)
         elif cls == "EAItemMove":
             m["item"] = pick_ref(r, items, "IU")
-            m["ids"] = [pick_ref(r, items, "IU") for _ in range(r.randint(1, top))]
+            m["ids"] = pick_refs(r, items, "IU", 1, top, big)
         elif cls == "EAItemSwap":
             m["ids"] = [pick_ref(r, items, "IU"), pick_ref(r, items, "IU")]
         return m
